@@ -77,6 +77,26 @@ func deepRecover(g *cur) {
 	g.emit("deep-recover " + Classify(r))
 }
 
+type faulter struct{ depth int }
+
+func (f *faulter) do(g *cur, id, kind int) { fault(g, id, kind) }
+
+// faultVia raises the fault directly, inside a function literal, through a
+// method, or through a function value.
+func faultVia(g *cur, id, kind, shape int) {
+	switch shape % 4 {
+	case 0:
+		fault(g, id, kind)
+	case 1:
+		func() { fault(g, id, kind) }()
+	case 2:
+		(&faulter{id}).do(g, id, kind)
+	case 3:
+		fv := fault
+		fv(g, id, kind)
+	}
+}
+
 func fault(g *cur, id, kind int) {
 	g.emit("fault " + strconv.Itoa(id) + " kind=" + strconv.Itoa(kind))
 	switch kind {
@@ -201,8 +221,12 @@ func node(g *cur, depth, id int) (res int) {
 		a := node(g, depth+1, id*3+1)
 		b := node(g, depth+1, id*3+2)
 		res = a + b
-	case 3, 6:
+	case 3:
 		fault(g, id, g.next()%14)
+		res = -1
+	case 6:
+		k := g.next() % 14
+		faultVia(g, id, k, g.next())
 		res = -1
 	case 4:
 		// child goroutine with its own subtree and top-level recover, joined by channel
